@@ -83,6 +83,12 @@ def post_unchanged(S0, S1):
     return [('end.stray-changes-nothing', z3.And(S1.tdom == S0.tdom, S1.cdom == S0.cdom, S1.ln == S0.ln, S1.el == S0.el))]
 
 
+def single_is_continuation(S0, t, c, qual):
+    """a NONE-qualified record whose own code is open on its thread continues a split path / string (C08):
+    it is collected like any other record but reported only with the last record"""
+    return z3.And(qual == 0, S0.is_open(t, c))
+
+
 def post_single(S0, S1, t, n):
     open0 = lambda cc: S0.is_open(t, cc)
     return [
